@@ -9,6 +9,9 @@ Generator : wire-level forests (independent of bromelia objects) encoded by the
 Oracle    : expected values come from the generator: message count/order,
             header getters, per-AVP code/flags/vendor/data/type (recursively),
             dump() == original slice.
+Registry  : histories over (vendor, code) pairs no shipped class uses: decode (alone,
+            in a message, in a Grouped AVP), print, define a dictionary class for the
+            pair - afterwards the pair must decode as that class, before as generic.
 Concurrent: the class registry is a module global; two generated streams are also
             decoded by two controlled threads with directed delays between source
             lines of the registry code, and each must decode as it does alone.
@@ -279,10 +282,139 @@ def run_conc(case):
     return out, info
 
 
+# ---------------------------------------------------------------------------------------------------------------------------
+# the registry follows the set of DiameterAVP subclasses: applications define their own dictionary classes at any time
+REG_PAIRS = [(None, 16700001), (None, 16700002), (10415, 16700001), (10415, 16700003), (99999, 16700002)]
+
+
+@st.composite
+def registry_histories(draw):
+    """ops over a few (vendor, code) pairs no shipped class uses: decode the pair (stand-alone, inside a message, inside a
+    Grouped AVP), ask for its name (printing a generic AVP consults the registry), define a dictionary class for it"""
+    ops = draw(st.lists(st.one_of(
+        st.builds(lambda p, how, n: {"op": "decode", "pair": p, "how": how, "n": n}, st.integers(0, len(REG_PAIRS) - 1),
+                  st.sampled_from(["avp", "message", "grouped"]), st.integers(0, 2**32 - 1)),
+        st.builds(lambda p: {"op": "name", "pair": p}, st.integers(0, len(REG_PAIRS) - 1)),
+        st.builds(lambda p, t: {"op": "define", "pair": p, "type": t}, st.integers(0, len(REG_PAIRS) - 1),
+                  st.sampled_from(["Unsigned32", "OctetString"]))), min_size=2, max_size=10))
+    return {"registry": True, "ops": ops}
+
+
+def run_registry(case):
+    import gc
+    common.bootstrap()
+    refdict.all_classes()
+    errors = common.lib_errors()
+    from bromelia.base import DiameterAVP, DiameterMessage
+    from bromelia import types as T
+    n_before = len(DiameterAVP.__subclasses__())
+    defined = {}
+    vs = []
+    info = {"decodes_after_define": 0, "define_after_seen": 0}
+    seen = set()
+    late = set()
+
+    def define(idx, tname):
+        vendor, code = REG_PAIRS[idx]
+        base = {"Unsigned32": T.Unsigned32Type, "OctetString": T.OctetStringType}[tname]
+        code_b = code.to_bytes(4, "big")
+        vendor_b = None if vendor is None else vendor.to_bytes(4, "big")
+
+        def __init__(self, data=b"\x00\x00\x00\x00"):
+            DiameterAVP.__init__(self, code_b, vendor_b)
+            if vendor_b is not None:
+                DiameterAVP.set_vendor_id_bit(self, True)
+            base.__init__(self, data=data, vendor_id=vendor_b)
+        return type(f"VerifPair{idx}AVP", (DiameterAVP, base), {"code": code_b, "vendor_id": vendor_b, "__init__": __init__})
+
+    try:
+        for step, op in enumerate(case["ops"]):
+            idx = op["pair"]
+            vendor, code = REG_PAIRS[idx]
+            if op["op"] == "define":
+                if idx in defined:
+                    continue
+                if idx in seen:
+                    info["define_after_seen"] += 1
+                    late.add(idx)
+                defined[idx] = define(idx, op["type"])
+                continue
+            flags = 0x80 if vendor is not None else 0x00
+            wire = rc.enc_avp(code, flags, vendor, struct_u32(op.get("n", 7)))
+            seen.add(idx)
+            try:
+                if op["op"] == "name":
+                    objs = DiameterAVP.load(wire)
+                    repr(objs[0])
+                    str(objs[0])
+                    continue
+                if op["how"] == "avp":
+                    obj = DiameterAVP.load(wire)[0]
+                elif op["how"] == "message":
+                    obj = DiameterMessage.load(rc.enc_msg(1, 0x80, 316, 16777251, 1, 2, [rc.enc_avp(263, 0x40, None, b"a;1;2"), wire]))[0].avps[1]
+                else:
+                    outer = DiameterAVP.load(rc.enc_avp(279, 0x40, None, wire))[0]          # Failed-AVP
+                    obj = list(outer.avps)[0]
+            except (Exception,) + errors as e:
+                vs.append(V("a well-formed AVP decodes", f"registry/decode-raises/{type(e).__name__}", f"step {step} {op}: {e!r}"))
+                continue
+            want = defined.get(idx)
+            if want is not None:
+                info["decodes_after_define"] += 1
+                if type(obj) is not want:
+                    vs.append(V("known (vendor, code) pairs are materialised as their dictionary class - also a class defined after the "
+                                "pair was first seen", f"registry/not-dispatched-to-new-class/{op['how']}/{'pair-seen-before-definition' if idx in late else 'pair-first-seen-after-definition'}",
+                                f"step {step}: pair {REG_PAIRS[idx]} decoded as {type(obj).__name__}, class {want.__name__} was defined at an earlier step; ops={case['ops']}"))
+            else:
+                if type(obj) is not DiameterAVP:
+                    vs.append(V("unknown pairs are materialised as generic AVPs", f"registry/unknown-not-generic/{op['how']}",
+                                f"step {step}: {type(obj).__name__}"))
+            if obj.dump() != wire:
+                vs.append(V("re-serialising reproduces the original bytes", f"registry/redump/{op['how']}", f"{obj.dump().hex()} != {wire.hex()}"))
+    finally:
+        obj = outer = objs = want = None
+        defined.clear()
+        import bromelia.base as _bb
+        _bb.loader.avps = None                 # the registry table holds the classes; it is rebuilt at the next lookup
+        gc.collect()
+    if len(DiameterAVP.__subclasses__()) != n_before:
+        raise RuntimeError("harness: temporary dictionary classes were not released")
+    seen_s, out = set(), []
+    for v in vs:
+        if v.sig not in seen_s:
+            seen_s.add(v.sig)
+            out.append(v)
+    return out, info
+
+
+def struct_u32(n):
+    return (n & 0xFFFFFFFF).to_bytes(4, "big")
+
+
 def run_case(case):
     if case.get("conc"):
         return run_conc(case)[0]
+    if case.get("registry"):
+        return run_registry(case)[0]
     return check_stream(case)
+
+
+def _collect_registry(shard, seed, n):
+    common.bootstrap()
+    refdict.all_classes()
+    col = Collector(PID, RULE)
+
+    def body(case):
+        vs, info = run_registry(case)
+        f = ["registry-history"]
+        if info["decodes_after_define"]:
+            f.append("decode-after-class-defined")
+        if info["define_after_seen"] and info["decodes_after_define"]:
+            f.append("class-defined-after-pair-was-seen")
+        col.record(case, vs, nontrivial=bool(info["decodes_after_define"]), classes=f)
+
+    common.hyp_collect(registry_histories(), body, n, seed)
+    return col
 
 
 def _collect_conc(shard, seed, n):
@@ -328,14 +460,16 @@ def main(ctx):
     else:
         col = common.run_shards(_collect, 16, ctx.seed, n=5000)
     col.merge(common.run_shards(_collect_conc, 8 if ctx.quick else 16, ctx.seed + 77, n=25 if ctx.quick else 600))
+    col.merge(common.run_shards(_collect_registry, 4 if ctx.quick else 16, ctx.seed + 99, n=100 if ctx.quick else 2000))
     for path, rec in common.load_replays(PID):
         col.record(rec["case"], run_case(rec["case"]), nontrivial=True, classes=["replay"])
     ctx.required_classes = ["non-default-flags", "non-default-flags-nested", "unknown-pair", "multi-message", "nested-grouped",
-                            "reserved-flag-bits", "grouped", "concurrent-decode-delayed-inside-registry-code", "concurrent-decode-two-delays"]
+                            "reserved-flag-bits", "grouped", "concurrent-decode-delayed-inside-registry-code", "concurrent-decode-two-delays",
+                            "class-defined-after-pair-was-seen"]
     ctx.assumptions = ["Vendor-ID 0 with the V flag is not generated (RFC 6733 4.1.1 forbids it)",
                        "Framed-IP-Address values with first octet 0 are not generated (documented limit)",
                        "dictionary = every class importable under bromelia (all modules imported by the harness)"]
-    ctx.shrinker = lambda sig, case: (case if case.get("conc") else
+    ctx.shrinker = lambda sig, case: (case if case.get("conc") or case.get("registry") else
                                       common.hyp_shrink(wire_stream(), lambda c: any(v.sig == sig for v in check_stream(c)),
                                                         ctx.seed, n=1500, budget_s=40) or case)
     return col
